@@ -231,26 +231,36 @@ type workerOut struct {
 //	engine -prop C06 -tier quick -seed S -from A -to B -out file.jsonl [-faults]
 //	engine -replay file.json            (exit 0 held, 3 violated, 2 harness trouble)
 //	engine -minimise file.json -o min.json
+//
+// flag variables (package level so that a test binary can define them in
+// TestMain and run the engine from inside a test function)
+var (
+	prop     = flag.String("prop", "", "property id")
+	tier     = flag.String("tier", "quick", "tier")
+	seed     = flag.Uint64("seed", 1, "base seed")
+	from     = flag.Int("from", 0, "first run index")
+	to       = flag.Int("to", 1, "one past the last run index")
+	out      = flag.String("out", "", "output jsonl")
+	faults   = flag.Bool("faults", false, "fault-injecting configuration")
+	replay   = flag.String("replay", "", "replay file")
+	minimise = flag.String("minimise", "", "replay file to minimise")
+	minOut   = flag.String("o", "", "output of -minimise")
+	budget   = flag.Duration("budget", 60*time.Second, "minimisation budget")
+	deadline = flag.Duration("deadline", 0, "stop starting new runs after this wall time")
+	digests  = flag.Bool("digests", false, "print seed and digest per run (determinism self-test)")
+	stride   = flag.Int("stride", 1, "run indices from,from+stride,...")
+	comps    = flag.Bool("components", false, "print which components run real code and which a stub")
+	dump     = flag.Bool("dump", false, "print the generated plan of run -from as a replay file and exit")
+)
+
+// Main is the entry point of every engine binary.
 func Main(e Engine) {
-	var (
-		prop     = flag.String("prop", "", "property id")
-		tier     = flag.String("tier", "quick", "tier")
-		seed     = flag.Uint64("seed", 1, "base seed")
-		from     = flag.Int("from", 0, "first run index")
-		to       = flag.Int("to", 1, "one past the last run index")
-		out      = flag.String("out", "", "output jsonl")
-		faults   = flag.Bool("faults", false, "fault-injecting configuration")
-		replay   = flag.String("replay", "", "replay file")
-		minimise = flag.String("minimise", "", "replay file to minimise")
-		minOut   = flag.String("o", "", "output of -minimise")
-		budget   = flag.Duration("budget", 60*time.Second, "minimisation budget")
-		deadline = flag.Duration("deadline", 0, "stop starting new runs after this wall time")
-		digests  = flag.Bool("digests", false, "print seed and digest per run (determinism self-test)")
-		stride   = flag.Int("stride", 1, "run indices from,from+stride,...")
-		comps    = flag.Bool("components", false, "print which components run real code and which a stub")
-		dump     = flag.Bool("dump", false, "print the generated plan of run -from as a replay file and exit")
-	)
 	flag.Parse()
+	RunParsed(e)
+}
+
+// RunParsed runs the engine after the flags have been parsed.
+func RunParsed(e Engine) {
 	QuietLogs()
 	switch {
 	case *comps:
